@@ -103,11 +103,6 @@ theorem sumBy_mOut_foldl (s : String) (ps : List Posting) (m : Groups) :
   | nil => simp [assetTotal]
   | cons p ps ih => simp only [List.foldl_cons, ih, sumBy_mOut_groupStep, assetTotal]; omega
 
-/-- Σ of the inputs of `volumeUpdates ps` in asset `s`. -/
-def inputsIn (s : String) (m : PCV) : Int := Map.sumBy (fun k v => if k.2 = s then v.input else 0) m
-/-- Σ of the outputs in asset `s`. -/
-def outputsIn (s : String) (m : PCV) : Int := Map.sumBy (fun k v => if k.2 = s then v.output else 0) m
-
 theorem inputsIn_volumeUpdates (s : String) (ps : List Posting) :
     inputsIn s (volumeUpdates ps) = assetTotal s ps := by
   unfold inputsIn volumeUpdates
